@@ -113,7 +113,7 @@ func TestVerif_C01(t *testing.T) {
 	run.Assume("accepted span = AddSpan/AddSpanFromPeer returned nil; forwarded = snapshot taken at Transmission.EnqueueSpan")
 	run.Assume("kept-record retention is measured conservatively: a trace is exempt when ≥ KeptSizePerWorker other traces of its worker used the kept LRU after its decision")
 
-	n := run.N(200, 2600)
+	n := run.N(180, 2600)
 	steps := run.N(60, 150)
 	var exempt, evaluated int
 	one := func(label string, i int, h *E1History) {
@@ -178,6 +178,14 @@ func TestVerif_C01(t *testing.T) {
 	// partial ejections followed by the spans that change a content-dependent sampler's mind
 	run.Cases("eject-then-complete", run.N(50, 600), func(i int, rng *verifkit.Rand) {
 		one("eject", i, c01GenEjectHistory(rng))
+	})
+	// a whole batch of traces is decided while the outgoing queue is full and the upstream takes nothing
+	run.Cases("stalled-upstream", run.N(4, 40), func(i int, rng *verifkit.Rand) {
+		one("stalled", i, e1GenStalledHistory(rng, false))
+	})
+	// decisions take fake time (single worker, small HealthCheckTimeout), many traces due at one tick
+	run.Cases("slow-decisions", run.N(25, 400), func(i int, rng *verifkit.Rand) {
+		one("slow", i, e1GenSlowHistory(rng))
 	})
 	if evaluated > 0 && exempt*100 > evaluated*2 {
 		run.Inconclusive(fmt.Sprintf("%d of %d traces exempted (>2%%)", exempt, evaluated))
